@@ -1014,7 +1014,10 @@ impl SolarDay {
   pub fn get_solar_week(&self, start: usize) -> SolarWeek {
     let y: isize = self.get_year();
     let m: usize = self.get_month();
-    SolarWeek::from_ym(y, m, ((self.day + SolarDay::from_ymd(y, m, 1).get_week().next(-(start as isize)).get_index()) as f64 / 7.0).ceil() as usize - 1, start)
+    let first_day: SolarDay = SolarDay::from_ymd(y, m, 1);
+    // position of this day among the days of the month (differs from the day number in October 1582)
+    let position: usize = self.subtract(first_day) as usize + 1;
+    SolarWeek::from_ym(y, m, ((position + first_day.get_week().next(-(start as isize)).get_index()) as f64 / 7.0).ceil() as usize - 1, start)
   }
 
   /// 节气
